@@ -37,6 +37,19 @@ func Open(path string) (*FreeList, error) {
 	if err != nil {
 		return nil, err
 	}
+	// Cut off an entry that was only partly written, otherwise it cannot be
+	// read back and misaligns everything appended after it.
+	fi, err := file.Stat()
+	if err != nil {
+		file.Close()
+		return nil, err
+	}
+	if extra := fi.Size() % (types.OffBytesLen + types.SizeBytesLen); extra != 0 {
+		if err = file.Truncate(fi.Size() - extra); err != nil {
+			file.Close()
+			return nil, err
+		}
+	}
 	return &FreeList{
 		file:      file,
 		writer:    bufio.NewWriterSize(file, blockBufferSize),
